@@ -295,6 +295,21 @@ fn c19_space(n: usize) -> Space {
             .collect();
         let tree = PredecessorTree::from(pred.clone());
         let det = |s: usize, t: String| json!({"pred": pred, "start": s, "target": t});
+        // the same tree built through new(n) + IndexMut is == the From<Vec> one; Index and
+        // into_iter read the links back unchanged
+        ctx.exec();
+        let built = guarded(|| {
+            let mut t2 = PredecessorTree::new(n);
+            let fresh = (0..n).all(|v| t2[v].is_none());
+            for (v, p) in pred.iter().enumerate() {
+                t2[v] = *p;
+            }
+            fresh && t2 == tree && (0..n).all(|v| tree[v] == pred[v]) && t2.into_iter().collect::<Vec<_>>() == pred
+        });
+        if built != Ok(true) {
+            ctx.fail(format!("PredecessorTree::new({n}) + IndexMut / Index / into_iter do not reproduce the predecessor vector: {built:?}"), json!({"pred": pred}));
+            return;
+        }
         // cyclic or self-referential?
         let cyclic = (0..n).any(|s| {
             let mut seen = BTreeSet::from([s]);
